@@ -209,7 +209,9 @@ pub fn via_binary_repeated(ctx: &mut Ctx, f: &Facts, version: u8, what: &str) {
                 ctx.outcome(obs.fingerprint());
             }
         },
-        Ok(Err(e)) => ctx.violation("Ontology::from_bytes", &format!("[{path}] rejects a file laid out as documented"), json!({"case": case(), "observed": e})),
+        // how a record id that occurs twice is treated is not specified: refusing the file is as defensible as
+        // first-wins / last-wins / merging
+        Ok(Err(_)) => {}
         Err(p) => ctx.violation("Ontology::from_bytes", &format!("[{path}] panics on a file laid out as documented"), json!({"case": case(), "observed": p})),
     }
 }
@@ -649,6 +651,67 @@ pub fn large_family() -> Vec<(Facts, String)> {
         }
     }
     out
+}
+
+/// Shapes beyond round-number depth and work budgets (512, 1000, 1024, 2048 levels; 10 000 routes): a chain of
+/// 1100 terms (ids ascending with depth), a chain of 2100 terms (ids descending with depth), each with a side
+/// term below the last-but-ten node and node 5, and a two-wide ladder of 14 levels (2^14 routes to the top).
+pub fn very_deep_family() -> Vec<(Facts, String)> {
+    let mut out = vec![];
+    for (n, reversed) in [(1100usize, false), (2100, true)] {
+        let id = |k: usize| -> u32 {
+            match k {
+                0 => 1,
+                1 => 118,
+                _ => if reversed { 9000 - k as u32 } else { 1000 + k as u32 },
+            }
+        };
+        let mut f = Facts::default();
+        f.version = (2024, 2, 29);
+        for k in 0..=n {
+            f.terms.push(Facts::term(id(k), &format!("N{k}")));
+        }
+        for k in 1..n {
+            f.edges.push((id(k), id(k - 1)));
+        }
+        f.edges.push((id(n), id(n - 10)));
+        f.edges.push((id(n), id(5)));
+        out.push((f, format!("deep chain of {n} terms plus a side term below node {} and node 5{}", n - 10, if reversed { " (descendants have smaller ids)" } else { "" })));
+    }
+    {
+        let levels = 14usize;
+        let mut f = Facts::default();
+        f.version = (2024, 2, 29);
+        f.terms.push(Facts::term(1, "N0"));
+        f.terms.push(Facts::term(118, "N1"));
+        f.edges.push((118, 1));
+        for l in 0..levels {
+            for s in 0..2 {
+                let id = 1000 + (2 * l + s) as u32;
+                f.terms.push(Facts::term(id, &format!("L{l}.{s}")));
+                if l == 0 {
+                    f.edges.push((id, 118));
+                } else {
+                    f.edges.push((id, 1000 + (2 * (l - 1)) as u32));
+                    f.edges.push((id, 1000 + (2 * (l - 1) + 1) as u32));
+                }
+            }
+        }
+        out.push((f, format!("ladder of {levels} levels with 2^{levels} routes")));
+    }
+    out
+}
+
+/// positions worth pairing in the very deep shapes
+pub fn very_deep_positions(n: usize) -> Vec<usize> {
+    let mut v: Vec<usize> = vec![0, 1, 2, 5, 6, n / 2, n.saturating_sub(11), n.saturating_sub(10), n.saturating_sub(2), n - 1];
+    for b in [255usize, 256, 257, 511, 512, 513, 999, 1000, 1001, 1023, 1024, 1025, 1026, 2047, 2048, 2049, 4095, 4096, 4097, 4098] {
+        v.push(b);
+    }
+    v.retain(|k| *k < n);
+    v.sort_unstable();
+    v.dedup();
+    v
 }
 
 /// For shapes too big for all ordered pairs: the positions (in `f.terms`) worth pairing - both ends, the
